@@ -186,6 +186,8 @@ LIST_TYPES = ("ints", "strs", "hashes", "grid", "list")
 
 
 def compatible(have: str, want: str) -> bool:
+    if have == "cap":
+        return False
     if want in ("any", have):
         return True
     if want == "num":
@@ -755,6 +757,10 @@ class Gen:
             kinds += ["render"] * 2
             if not self.in_isolated:
                 kinds += ["include"] * 2
+        if not c.inspect_captures and not self.in_liquid:
+            caps = [n for n, ty in self.scope.items() if ty == "cap"]
+            if caps and self.p(0.25):
+                return {"t": "out", "e": ["path", self.pick(caps), []], "wc": self.wc()}
         k = self.pick(kinds)
         if k == "text":
             return {"t": "text", "s": self.text()}
@@ -788,9 +794,11 @@ class Gen:
             self.captured.discard(name)
             return s
         if k == "capture":
-            name = self.pick(["cap", "v", "w"])
+            name = self.pick(["cap", "v", "w"]) if c.inspect_captures else self.pick(["cap", "cap2"])
             body = self.block(depth - 1, min_stmts=1)
-            self.scope[name] = "str"
+            # with inspect_captures off a captured variable has the opaque type "cap": no
+            # expression may look at it (size, comparison, filters); it is only ever output
+            self.scope[name] = "str" if c.inspect_captures else "cap"
             self.captured.add(name)
             return {"t": "capture", "name": name, "body": body, "wc": self.wc(), "wc_end": self.wc()}
         if k in ("if", "unless"):
